@@ -99,7 +99,10 @@ fn drive(spec: &ExchangeSpec, s: &mut Sched, follow: Option<RedirectAuthHeaders>
                                     // the followed flow inherits the Expect header: it must behave like any other flow with it
                                     // variant 0 plain; 1 body sent despite the method (Await100 first when Expect is inherited);
                                     // 2 the server sends an interim 100 that nobody waited for (skipped once)
-                                    let despite2 = follow_variant % 3 == 1;
+                                    // (a request sent with send-body-despite-method and repeated by a 307/308: whether the followed flow
+                                    // remembers the caller's wish is not stated; the caller states it again)
+                                    let carried = spec.despite && !needs_body(&spec.method) && matches!(spec.resp.head.status, 307 | 308);
+                                    let despite2 = follow_variant % 3 == 1 || carried;
                                     let late100 = follow_variant % 3 == 2 && spec.expect;
                                     let spec2 = ExchangeSpec {
                                         method: m,
